@@ -65,3 +65,9 @@ Definition ms_run_backoff (limit min max : Z) (n : nat) : list Z * Z :=
   let b := ms_backoff_new {| ms_s_min := min; ms_s_max := max |} in
   let '(ds, b1) := ms_failures limit b n in
   (ds, snd (ms_on_failure limit (ms_on_success b1))).
+
+(* arithmetic the OCaml engine uses to read and print durations beyond 63 bits *)
+Definition ms_zadd (a b : Z) : Z := a + b.
+Definition ms_zmul (a b : Z) : Z := a * b.
+Definition ms_zdiv (a b : Z) : Z := a / b.
+Definition ms_zmod (a b : Z) : Z := a mod b.
